@@ -63,6 +63,11 @@ chk('C17', 'model_checking',
     'Every history of up to 3 operations on req and 2 on bereq/beresp/obj/resp (quick; thorough: 3 everywhere, 4 on req) over 42 operations (set with empty / not-set / multi-line / sub-field-carrying values, set and unset of sub-fields, add, unset, on the names Foo, fOO, Bar) is executed on a fresh interpreter through the real statement path with a full read snapshot after every step. Invariants on every transition: read-after-set, not-set-after-unset for every spelling, frame conditions for every other header and every other sub-field; on every final state the history with Foo/fOO swapped must give the same reads. States (distinct read vectors), transitions and traces are counted by the run; every explored trace is an implementation trace.',
     'Trusts: the observation through VCL log/if reads; histories are not pruned by state, so no abstraction can hide a future.')
 
+chk('C08', 'exploration',
+    'bounded-exhaustive enumeration of boundary programs and requests on the fuel-instrumented simulator; crash/hang oracle',
+    'Complete products: 15 assignment operators x 7 target types x 7 operand types x boundary operands (0, +-1, INT64 min/max, 2^31, 63/64/65, NaN/inf, FLOAT_MAX/MIN, empty/not-set strings, epoch-boundary times) x {literal, variable} x 3 initial values; every built-in function of builtin.yml x every signature x boundary arguments per parameter type (full product up to 3 parameters); every statement derivation in all 9 scopes; recursion, restart in every scope, error-in-error, goto loops, all self/mutual/missing include shapes through ServeHTTP; the full lifecycle reading every readable predefined variable for 5 methods x 4 paths x 3 queries x 5 header sets x 1-3 requests; the test runner on 7 files. Oracle: returns a response or a reported error - no panic, no process death, no fuel exhaustion.',
+    'Trusts: fuel instrumentation (2e7 ticks per case); the stub backend transport; each worker process attributes a fatal crash to the journalled case.')
+
 NOT_YET = {i: 'check not built yet in this session (design in DESIGN.md §4); will be claimed once its command exists' for i in ids if i not in CHECKS}
 
 m = {
